@@ -19,7 +19,7 @@ func libSuite(prop string) Suite {
 			if tier == "thorough" {
 				return 4000
 			}
-			return 160
+			return 600
 		},
 	}
 }
@@ -35,7 +35,7 @@ func codecSuite() Suite {
 			if tier == "thorough" {
 				return 20000
 			}
-			return 1200
+			return 4000
 		},
 	}
 }
@@ -62,7 +62,7 @@ func hostileCodecSuite() Suite {
 			if tier == "thorough" {
 				return 40000
 			}
-			return 2500
+			return 6000
 		},
 	}
 }
@@ -78,7 +78,7 @@ func hostileFileSuite() Suite {
 			if tier == "thorough" {
 				return 20000
 			}
-			return 1200
+			return 3000
 		},
 	}
 }
@@ -109,7 +109,7 @@ func validateSuite() Suite {
 			if tier == "thorough" {
 				return 30000
 			}
-			return 1500
+			return 5000
 		},
 	}
 }
@@ -124,7 +124,7 @@ func textSuite() Suite {
 			if tier == "thorough" {
 				return 6000
 			}
-			return 400
+			return 1500
 		},
 	}
 }
@@ -179,34 +179,45 @@ func suitesFor(prop string) []Suite {
 	switch prop {
 	case "C08":
 		return []Suite{cmdSuite("copy", func(r *Rng, i int, tier string) []Op {
+			if i%6 == 4 {
+				return genStagedCase(r, "C08")
+			}
 			if i%4 == 3 {
 				return genCopyGlobCase(r)
 			}
 			return genCopyCase(r)
-		}, 240, 4000, postCopy)}
+		}, 700, 4000, postCopy)}
 	case "C09":
 		return []Suite{cmdSuite("diff", func(r *Rng, i int, tier string) []Op {
+			if i%8 == 5 {
+				return genDiffGlobOrderCase(r)
+			}
 			if i%4 == 3 {
 				return genCopyGlobCase(r)
 			}
 			return genDiffCase(r)
-		}, 240, 4000, postDiff)}
+		}, 700, 4000, postDiff)}
 	case "C10":
-		return []Suite{cmdSuite("sum", func(r *Rng, i int, tier string) []Op { return genSumCase(r, "C10") }, 200, 3000, postAny)}
+		return []Suite{cmdSuite("sum", func(r *Rng, i int, tier string) []Op { return genSumCase(r, "C10") }, 600, 3000, postAny)}
 	case "C11":
-		return []Suite{cmdSuite("sumcopy", func(r *Rng, i int, tier string) []Op { return genSumCase(r, "C11") }, 200, 3000, postSumCopy)}
+		return []Suite{cmdSuite("sumcopy", func(r *Rng, i int, tier string) []Op {
+			if i%6 == 4 {
+				return genStagedCase(r, "C11")
+			}
+			return genSumCase(r, "C11")
+		}, 600, 3000, postSumCopy)}
 	case "C12":
-		return []Suite{cmdSuite("remote", func(r *Rng, i int, tier string) []Op { return genRemoteCase(r) }, 120, 2000, postRemote)}
+		return []Suite{cmdSuite("remote", func(r *Rng, i int, tier string) []Op { return genRemoteCase(r) }, 300, 2000, postRemote)}
 	case "C18":
-		return []Suite{cmdSuite("view", func(r *Rng, i int, tier string) []Op { return genViewCase(r) }, 240, 4000, postView)}
+		return []Suite{cmdSuite("view", func(r *Rng, i int, tier string) []Op { return genViewCase(r) }, 600, 4000, postView)}
 	case "C13":
 		return []Suite{{Name: "lock", Custom: lockSuite}}
 	case "C17":
 		return []Suite{{Name: "race", Custom: raceSuite}}
 	case "C20":
-		return []Suite{cmdSuite("generate", func(r *Rng, i int, tier string) []Op { return genGenerateCase(r) }, 60, 1500, postAny)}
+		return []Suite{cmdSuite("generate", func(r *Rng, i int, tier string) []Op { return genGenerateCase(r) }, 150, 1500, postAny)}
 	case "C16":
-		return []Suite{cmdSuite("loud", func(r *Rng, i int, tier string) []Op { return genLoudCase(r) }, 400, 6000, postAny)}
+		return []Suite{cmdSuite("loud", func(r *Rng, i int, tier string) []Op { return genLoudCase(r) }, 1000, 6000, postAny)}
 	case "C06":
 		return []Suite{libSuite(prop), interopSuite()}
 	case "C19":
